@@ -1,4 +1,5 @@
 import LexVerif.Proof.WriteIntApi
+import LexVerif.Proof.WriteIntAlgorithm
 /-!
 # C03 — integer→string output is the exact canonical numeral in every radix (property theorems)
 
@@ -66,6 +67,74 @@ theorem writeInt_correct_compact (feats : Features) (t : IntTy) (radix : Nat) (r
 computes the numeral there. -/
 example : writeInt { compact := true, powerOfTwo := true, radix := true } ⟨8, true⟩ 7 false true (-128)
     (List.replicate 16 170) = .ok ([45, 50, 52, 50] ++ List.replicate 12 170, 4) := by decide +kernel
+
+/-- `digit_count(value, radix)` is exact on u8..u64 for every non-decimal radix (power-of-two radices through
+`fast_log2`, all others through the naive 4/2/1 loops). -/
+theorem digitCount_exact (bits r value : Nat) (hb : SmallBits bits) (hr : 2 ≤ r) (hr36 : r ≤ 36) (h10 : r ≠ 10)
+    (hv : value < 2 ^ bits) : digitCountSmall bits value r = .ok (toDigits r value).length :=
+  digitCountSmall_spec bits r value hb hr hr36 h10 hv
+
+example : digitCountSmall 8 255 11 = .ok 3 := by decide +kernel
+
+/-- `write_digits` (the 4-2-1 digit-pair loop with unchecked writes) writes exactly the canonical numeral in the
+`len` bytes below `index`, touches nothing else, and never faults, for u8..u64 and every radix. -/
+theorem writeDigits_correct (bits r value : Nat) (hb : SmallBits bits) (hr : 2 ≤ r) (hr36 : r ≤ 36)
+    (hv : value < 2 ^ bits) (pre suf : List Nat) (hlen : (toDigits r value).length ≤ pre.length)
+    (hp64 : pre.length < 2 ^ 64) :
+    ∃ pre', pre'.length + (toDigits r value).length = pre.length ∧
+      writeDigits bits value r (pre ++ suf) pre.length = .ok (pre' ++ numeral r value ++ suf, pre'.length) := by
+  obtain ⟨H4, H2, HN2⟩ := widths_ok bits r hb hr hr36
+  exact writeDigits_spec bits r value hr hr36 (by rcases hb with h | h | h | h <;> omega)
+    (by rcases hb with h | h | h | h <;> omega) hv H4 H2 HN2 pre suf hlen hp64
+
+/-- **C03 for the generic radix writer** (`algorithm.rs`, builds with `power-of-two`/`radix`, not `compact`):
+every non-decimal radix of the feature set, all of u8..u64, i8..i64, usize, isize, and those u128/i128 values
+whose magnitude fits in 64 bits (the `value <= u64::MAX` shortcut of `algorithm_u128`).
+Not covered here (correspondence only): 128-bit magnitudes ≥ 2^64 (`u128_divrem` chunking). -/
+theorem writeInt_correct_radix_partial (feats : Features) (t : IntTy) (radix : Nat) (reqSign checkValid : Bool)
+    (v : Int) (buffer : Buf) (hc : feats.compact = false)
+    (hwf : FeaturesWF feats) (hbits : ValidBits t.bits) (hvalid : validRadix feats radix = true)
+    (h10 : radix ≠ 10) (hv : t.inRange v) (hsmall : t.bits = 128 → v.natAbs < 2 ^ 64)
+    (hbuf : requiredSize feats t radix reqSign ≤ buffer.length) :
+    writeInt feats t radix reqSign checkValid v buffer =
+      .ok (expected feats radix reqSign v ++ buffer.drop (expected feats radix reqSign v).length,
+           (expected feats radix reqSign v).length) := by
+  obtain ⟨hr2, hr36⟩ := validRadix_range feats radix hvalid
+  have hp2 := validRadix_ne10 feats radix hwf hvalid h10
+  have hsize := size_ok feats hwf t hbits radix hvalid reqSign v hv
+  have hmaglt : v.natAbs < 2 ^ t.bits := by
+    obtain ⟨bits, sg⟩ := t
+    simp only [IntTy.inRange, IntTy.minVal, IntTy.maxVal, IntTy.maxMag] at hv
+    simp only at hbits ⊢
+    rcases hbits with h | h | h | h | h <;> subst h <;> cases sg <;> simp at hv <;> omega
+  have htab : hasTable feats radix = true := by
+    unfold hasTable; unfold validRadix at hvalid
+    by_cases hrx : feats.radix = true
+    · rw [if_pos hrx] at hvalid ⊢; exact hvalid
+    · rw [if_neg hrx] at hvalid ⊢; rw [if_pos hp2] at hvalid; exact hvalid
+  have hlen128 : (numeral radix v.natAbs).length ≤ 128 := by
+    rw [numeral_length]
+    have := toDigits_length_le_bits radix v.natAbs t.bits hr2
+      (by rcases hbits with h | h | h | h | h <;> omega) hmaglt
+    rcases hbits with h | h | h | h | h <;> omega
+  apply writeInt_of_mantissa feats t radix reqSign checkValid v buffer (numeral radix v.natAbs).length hbits
+    hvalid hv ?_ (by omega) (Nat.le_refl _) (by omega)
+  intro buf hb
+  unfold writeMantissa
+  rw [if_neg (by simp [hc]), if_neg (by simp [hp2]), if_neg h10]
+  rcases hbits with h | h | h | h | h
+  · exact radixWrite_small_spec feats t.bits radix _ (Or.inl h) hr2 hr36 h10 hmaglt htab buf hb
+  · exact radixWrite_small_spec feats t.bits radix _ (Or.inr (Or.inl h)) hr2 hr36 h10 hmaglt htab buf hb
+  · exact radixWrite_small_spec feats t.bits radix _ (Or.inr (Or.inr (Or.inl h))) hr2 hr36 h10 hmaglt htab buf hb
+  · exact radixWrite_small_spec feats t.bits radix _ (Or.inr (Or.inr (Or.inr h))) hr2 hr36 h10 hmaglt htab buf hb
+  · rw [h]
+    exact radixWrite_u128_small_spec feats radix _ hr2 hr36 h10 (hsmall h) htab hvalid buf hb
+
+/-- non-vacuity: i64::MIN in radix 36 on a `radix` build -/
+example : writeInt { powerOfTwo := true, radix := true } ⟨64, true⟩ 36 false true (-9223372036854775808)
+    (List.replicate 128 170) =
+    .ok ([45, 49, 89, 50, 80, 48, 73, 74, 51, 50, 69, 56, 69, 56] ++ List.replicate 114 170, 14) := by
+  decide +kernel
 
 /-- **Finding (kept out of the theorem by `requiredSize`)**: with the `format` feature and
 `required_mantissa_sign`, an unsigned value written into a buffer of exactly `buffer_size_const`
